@@ -26,7 +26,6 @@ import (
 	"encoding/json"
 	"flag"
 	"fmt"
-	"math"
 	"os"
 	"runtime"
 	"runtime/debug"
@@ -601,10 +600,10 @@ func main() {
 	if !*noSeqFlag && !r.Expired() {
 		tl := time.Now()
 		// 256 MB messages: payload, reassembly buffer (while growing) and the delivered copy are alive
-		// at once (~1.2 GB); a proportional pacer recycles the per-packet buffers promptly
-		debug.SetMemoryLimit(math.MaxInt64)
-		debug.SetGCPercent(25)
-		lim = runLimitCases(r, seqWorld)
+		// at once (~1.2 GB). No pacer, no scavenger: the harness collects explicitly every 16 packets
+		// so that freed memory (already faulted in) is reused.
+		tuneGC(16 << 10)
+		lim = runLimitCases(r, seqWorld, deadline)
 		fmt.Printf("size limit: %d cases around maxMessageSize=%d (%.1fs): %s\n", len(lim), K.MaxMessageSize, time.Since(tl).Seconds(), strings.Join(lim, "; "))
 	} else if !*noSeqFlag {
 		r.Note("size-limit cases not run (deadline)")
